@@ -179,6 +179,7 @@ class Interp:
         self.trace = []
         self.hasher_log = []
         self.fresh_n = 0
+        self.tls = {}          # thread-local storage of the (single) modelled thread: LocalKey name -> Cell
 
     def fresh(self, name, w):
         """a named symbolic bit-vector input (registered so that models can be reported)"""
